@@ -90,10 +90,10 @@ func genOffer(rng *rand.Rand) offer {
 func modeCopts(mode int) (cnct, snct bool) { return mode == 2, mode == 2 }
 
 type c14Case struct {
-	Kind     string   `json:"kind"` // server-fn | client-fn | accept-e2e | dial-e2e | lib-lib
-	Mode     int      `json:"mode"`
-	Mode2    int      `json:"mode2,omitempty"`
-	Header   []string `json:"header_lines"` // Sec-WebSocket-Extensions lines
+	Kind   string   `json:"kind"` // server-fn | client-fn | accept-e2e | dial-e2e | lib-lib
+	Mode   int      `json:"mode"`
+	Mode2  int      `json:"mode2,omitempty"`
+	Header []string `json:"header_lines"` // Sec-WebSocket-Extensions lines
 }
 
 func extHeader(lines []string) http.Header {
